@@ -141,6 +141,20 @@ def _readline_timeout(p, timeout):
 
 
 # ------------------------------------------------------------------- verdicts
+def _bounded_outcomes(counter, keep=80, width=100):
+    """the distribution of outcomes as a small table: the most frequent ones by (shortened) name, the rest summed up"""
+    out = {}
+    common = counter.most_common()
+    for k, v in common[:keep]:
+        k = str(k)
+        k = k if len(k) <= width else k[:width] + "...(%d chars)" % len(k)
+        out[k] = out.get(k, 0) + v
+    rest = common[keep:]
+    if rest:
+        out["(%d further distinct outcomes)" % len(rest)] = sum(v for _, v in rest)
+    return out
+
+
 def load_known():
     p = os.path.join(VERIF, "known_findings.json")
     if not os.path.exists(p):
@@ -260,7 +274,7 @@ class Report:
             "samples": self.samples[:24],
             "traces_validated_against_impl": self.traces_validated,
             "case_kinds": dict(self.kinds),
-            "outcome_distribution": dict(self.outcomes),
+            "outcome_distribution": _bounded_outcomes(self.outcomes),
             "model_impl_disagreements": len(self.disagreements),
             "property_failures_new": len(new_failures),
             "property_failures_known": dict(seen_known),
